@@ -16,6 +16,7 @@ import (
 )
 
 type RunOpts struct {
+	PassReplays   int // number of passing paths to export with a model, per harness
 	MaxInstrs     int64
 	Unwind        int
 	MaxConcretize int
@@ -309,6 +310,53 @@ func (w *worker) runPath(fn *ssa.Function, decs []int) {
 			w.reportViolation(p, "deadlock", "deadlock", "all goroutines blocked: "+desc, "")
 		} else {
 			w.stats.Completed++
+			// keep a few explored cases for the evidence: prefer paths that
+			// reached many labels
+			// a few passing paths with concrete input values, for native
+			// replay (validates the translation on non-failing runs too)
+			if w.ex.prog.opts.PassReplays > 0 && !p.engineChoice && !p.violated && len(p.vars) > 0 {
+				res.mu.Lock()
+				want := len(res.PassReplays) < w.ex.prog.opts.PassReplays && (len(res.PassReplays) == 0 || w.stats.Completed%53 == 0)
+				res.mu.Unlock()
+				if want {
+					if r := w.solver.Check(); r == Sat {
+						var reached []string
+						for k := range p.reached {
+							if !strings.HasPrefix(k, "assert:") {
+								reached = append(reached, k)
+							}
+						}
+						sort.Strings(reached)
+						v := Violation{Harness: w.ex.fn, Label: strings.Join(reached, ","), Kind: "pass", Values: p.model(),
+							Decs: append([]int(nil), p.decs...)}
+						res.mu.Lock()
+						if len(res.PassReplays) < w.ex.prog.opts.PassReplays {
+							res.PassReplays = append(res.PassReplays, v)
+						}
+						res.mu.Unlock()
+					}
+				}
+			}
+			res.mu.Lock()
+			if len(res.PathSamples) < 6 && (len(res.PathSamples) < 2 || w.stats.Completed%97 == 0) {
+				var parts []string
+				for _, v := range p.vars {
+					if v.Conc != nil {
+						parts = append(parts, fmt.Sprintf("%s=%s", v.Label, v.Conc.String()))
+					} else if v.Label != "nonce" {
+						parts = append(parts, fmt.Sprintf("%s=<any %s>", v.Label, v.Kind))
+					}
+				}
+				var reached []string
+				for k := range p.reached {
+					if !strings.HasPrefix(k, "assert:") {
+						reached = append(reached, k)
+					}
+				}
+				sort.Strings(reached)
+				res.PathSamples = append(res.PathSamples, fmt.Sprintf("inputs{%s} path-condition %d conjuncts, reached %v", strings.Join(parts, " "), len(p.pc), reached))
+			}
+			res.mu.Unlock()
 		}
 	case pathEnd:
 		if e.verdict == "infeasible" {
@@ -335,6 +383,7 @@ func (s *scheduler) killAllSafe() {
 
 // reportViolation records a violation with a model of the current path condition.
 func (w *worker) reportViolation(p *path, kind, label, msg, kf string) {
+	p.violated = true
 	v := Violation{Harness: w.ex.fn, Label: label, Kind: kind, Msg: msg, KF: kf,
 		Decs: append([]int(nil), p.decs...), Sched: append([]int(nil), p.sched...)}
 	if r := w.solver.Check(); r == Sat {
